@@ -106,12 +106,16 @@ func freeOp(db *pogreb.DB, it *pogreb.ItemIterator, keys map[string][]byte, o ex
 
 // freeMain is the body of `pogverif free <fs> <reps> <seed>` (run from the -race binary).
 func freeMain(kind string, reps int, seed int64) int {
-	scratch, err := os.MkdirTemp("/dev/shm", "pogverif-free-")
-	if err != nil {
-		fmt.Println("FREE-SKIP: no scratch directory:", err)
-		return 0
+	scratch := os.Getenv("POGVERIF_FREE_SCRATCH") // made and removed by the parent (this process may be killed by its watchdog)
+	if scratch == "" {
+		var err error
+		scratch, err = os.MkdirTemp("/dev/shm", "pogverif-free-")
+		if err != nil {
+			fmt.Println("FREE-SKIP: no scratch directory:", err)
+			return 0
+		}
+		defer os.RemoveAll(scratch)
 	}
-	defer os.RemoveAll(scratch)
 	scs := c10Scenarios(false)
 	n := 0
 	problems := 0
@@ -229,6 +233,10 @@ func c10Free(c *explore.Ctx) {
 		}
 		cmd := exec.Command(bin, "free", kind, fmt.Sprint(reps), fmt.Sprint(c.Seed))
 		cmd.Env = append(os.Environ(), "GORACE=halt_on_error=0 history_size=3", "GOMAXPROCS=8")
+		if scratch, err := os.MkdirTemp("/dev/shm", "pogverif-free-"); err == nil {
+			cmd.Env = append(cmd.Env, "POGVERIF_FREE_SCRATCH="+scratch)
+			defer os.RemoveAll(scratch)
+		}
 		var out bytes.Buffer
 		cmd.Stdout = &out
 		cmd.Stderr = &out
